@@ -142,16 +142,17 @@ func mkReqNameC53(name string) *bfe_basic.Request {
 
 // VerifC53_scenarios: three narrow histories with the symbolic clock (16-bit instants, periods < 2^12 ns,
 // every request handled in less than StayPeriod and less than CheckPeriod):
-//  0 idle-then-burst, Threshold 1, one key: a first request, a pause longer than CheckPeriod (any length:
-//    2, 3, 10 periods), then 2*Threshold+1 = 3 requests within one CheckPeriod. Whatever the alignment of
-//    the counting windows, Threshold+1 of the three fall into one window, so one of them is denied.
-//  1 jail length, Threshold 1, one key: two requests within one CheckPeriod of the first (the counter's
-//    own window) jail the key; a third request before (window start + CheckPeriod + StayPeriod), i.e.
-//    before "StayPeriod plus the rest of that period" has passed, is denied.
-//  2 other keys, Threshold 1, accessDictSize 1 < prisonDictSize 2: key A is jailed by two requests, then key
-//    B by two requests (2 jailed keys fit the prison dictionary; a key's counter is dropped when it is
-//    jailed, so one counter slot suffices); A is still denied before its StayPeriod has passed.
-//    (With Threshold 0 the probe would be jailed afresh on the spot and an eviction would go unnoticed.)
+//
+//	0 idle-then-burst, Threshold 1, one key: a first request, a pause longer than CheckPeriod (any length:
+//	  2, 3, 10 periods), then 2*Threshold+1 = 3 requests within one CheckPeriod. Whatever the alignment of
+//	  the counting windows, Threshold+1 of the three fall into one window, so one of them is denied.
+//	1 jail length, Threshold 1, one key: two requests within one CheckPeriod of the first (the counter's
+//	  own window) jail the key; a third request before (window start + CheckPeriod + StayPeriod), i.e.
+//	  before "StayPeriod plus the rest of that period" has passed, is denied.
+//	2 other keys, Threshold 1, accessDictSize 1 < prisonDictSize 2: key A is jailed by two requests, then key
+//	  B by two requests (2 jailed keys fit the prison dictionary; a key's counter is dropped when it is
+//	  jailed, so one counter slot suffices); A is still denied before its StayPeriod has passed.
+//	  (With Threshold 0 the probe would be jailed afresh on the spot and an eviction would go unnoticed.)
 func VerifC53_scenarios() {
 	period, stay := int64(vrt.U16("period")), int64(vrt.U16("stay"))
 	vrt.Assume(period > 0 && period < 1<<12 && stay > 0 && stay < 1<<12)
